@@ -33,6 +33,7 @@ import (
 	"fmt"
 	"html"
 	"io"
+	stdlog "log"
 	"net"
 	"net/http"
 	"net/http/httptest"
@@ -379,6 +380,9 @@ type proxyObs struct {
 
 // proxyStep visits the proxy's sign-out URL.
 func (h *history) proxyStep(pw *proxyWorld, host string, originForm bool, method string, cookieKind int) proxyObs {
+	if strings.Contains(host, "%") {
+		originForm = true // an absolute-form target with such a host is not a parsable request line
+	}
 	scheme := "http"
 	if pw.secure {
 		scheme = "https"
@@ -1041,6 +1045,7 @@ func (e *env) corpus() []c.Case {
 func main() {
 	a := c.ParseArgs()
 	c.Quiet()
+	stdlog.SetOutput(io.Discard) // net/http reports dropped cookie attributes through the standard logger
 	r := c.NewRng(a.Seed)
 	pc, err := net.ListenPacket("udp", "127.0.0.1:0")
 	c.Must(err)
